@@ -18,7 +18,7 @@ Theorem c19_no_loss_no_dup_in_order : forall c width fs0 rot0 now0 h,
   exists chunks cur,
     decomposition c s chunks cur /\
     concat chunks ++ cur = init_content c fs0 ++ written h /\
-    map fst (s_posts s) ++ [s_backup s] = map (backup_filename c) (now0 :: rot_stamps c (init c fs0 rot0 now0) h).
+    map fst (s_posts s) ++ [s_backup s] = map (backup_filename c) (used_stamps c (init c fs0 rot0 now0) [now0] h).
 Proof. exact no_loss. Qed.
 Print Assumptions c19_no_loss_no_dup_in_order.
 
@@ -74,6 +74,37 @@ Theorem c19_size_overshoot_bound : forall max ic cnt,
 Proof. exact size_ok_bound. Qed.
 Print Assumptions c19_size_overshoot_bound.
 
+(* a compression that fails -- before or after F.gz was created -- leaves the plain backup in place
+   (c19_no_loss_no_dup_in_order already quantifies over histories with EGzipFail steps) *)
+Theorem c19_failed_compression_keeps_backup : forall c F junk fs x,
+  fs_get F fs = Some x -> fs_get F (compress_fail c F junk fs) = Some x.
+Proof. exact compress_fail_keeps. Qed.
+Print Assumptions c19_failed_compression_keeps_backup.
+
+(* the configuration path Config -> With* options -> createOutput -> rule constructor -> NewLogger copies
+   the configured numbers into the rule unchanged (non-positive ones count as 0 = no limit): MaxSize (MB)
+   is the size bound, MaxBackups the number of kept backups, KeepDays the retention, Compress both gzip flags *)
+Theorem c19_config_reaches_rule : forall path u,
+  let c := rule_of_config path u in
+  c_file c = path /\ c_delim c = backup_file_delimiter /\
+  c_gzip c = su_compress u /\ c_compress c = su_compress u /\
+  c_days c = Z.max 0 (su_keep_days u) /\
+  (su_size u = true ->
+   c_kind c = SizeLimit /\ c_max_size c = Z.max 0 (su_max_size u) * mega_bytes /\
+   c_max_backups c = Z.max 0 (su_max_backups u)) /\
+  (su_size u = false -> c_kind c = Daily).
+Proof. exact config_reaches_rule. Qed.
+Print Assumptions c19_config_reaches_rule.
+
+Theorem c19_config_reaches_rule_positive : forall path u,
+  su_size u = true -> 0 < su_max_size u -> 0 < su_max_backups u -> 0 < su_keep_days u ->
+  let c := rule_of_config path u in
+  c_kind c = SizeLimit /\ c_max_size c = su_max_size u * mega_bytes /\
+  c_max_backups c = su_max_backups u /\ c_days c = su_keep_days u /\
+  c_gzip c = su_compress u /\ c_compress c = su_compress u.
+Proof. exact config_reaches_rule_positive. Qed.
+Print Assumptions c19_config_reaches_rule_positive.
+
 (* every file named by OutdatedFiles is a directory entry matching the backup pattern, is not the
    current file, and is older than the boundary or has maxBackups newer matching files after it *)
 Theorem c19_outdated_sound : forall c fs b f,
@@ -113,7 +144,8 @@ Qed.
 Definition ex_cfg : config := mkcfg Daily access_log dash 1 true true 0 0.
 Definition ex_hist : list event :=
   [EWrite (mkrec 1 5) d20200105; EWrite (mkrec 2 7) d20200106; EGzip 0; EWrite (mkrec 3 4) d20200106;
-   EWrite (mkrec 4 9) d20200107; EDelete 0 d20200106].
+   ERestart d20200106 d20200106;
+   EWrite (mkrec 4 9) d20200107; EGzipFail 1 None; EDelete 0 d20200106].
 
 Example c19_hypotheses_satisfiable :
   c_delim ex_cfg <> [] /\ current_plain ex_cfg [] /\
@@ -122,7 +154,7 @@ Proof.
   split; [discriminate|]. split; [intros cnt d H; discriminate|].
   split.
   - repeat constructor.
-  - vm_compute. repeat constructor; simpl; intuition discriminate.
+  - vm_compute. repeat split; repeat constructor; simpl; intuition discriminate.
 Qed.
 
 Example c19_nonvacuous :
